@@ -309,3 +309,137 @@ Proof.
   - destruct (H1 Hi) as [n ->]. left. reflexivity.
   - rewrite (H2 Hn). apply Hout; assumption.
 Qed.
+
+(* ------------------------------------------------------------------ rows and deletion log of a transaction *)
+Definition data_eq (d1 d2 : disk) : Prop := d_rows d1 = d_rows d2 /\ d_tombs d1 = d_tombs d2.
+Lemma data_eq_refl : forall d, data_eq d d. Proof. split; reflexivity. Qed.
+Lemma data_eq_trans : forall a b c, data_eq a b -> data_eq b c -> data_eq a c.
+Proof. intros a b c [H1 H2] [H3 H4]. split; congruence. Qed.
+Lemma data_eq_apply_op : forall d1 d2 o, data_eq d1 d2 -> data_eq (apply_op d1 o) (apply_op d2 o).
+Proof. intros d1 d2 o [H1 H2]. destruct o; split; cbn [apply_op d_rows d_tombs]; congruence. Qed.
+Lemma data_eq_apply_ops : forall l d1 d2, data_eq d1 d2 -> data_eq (apply_ops d1 l) (apply_ops d2 l).
+Proof.
+  induction l as [|o t IH]; intros d1 d2 H; cbn [apply_ops fold_left]; auto.
+  apply IH. apply data_eq_apply_op. exact H.
+Qed.
+Lemma data_eq_recompute : forall d, data_eq (recompute d) d. Proof. split; reflexivity. Qed.
+Lemma data_eq_write_marks : forall d m, data_eq (write_marks d m) d. Proof. split; reflexivity. Qed.
+
+(* the row operations a request contributes to its transaction *)
+Definition eff_ops (sk : skeleton) (r : req) : list op :=
+  match arm_of sk (r_kind r) with
+  | Some a => if a_fallible a then match a_kind a with KCompute => [] | _ => req_ops r end else []
+  | None => []
+  end.
+
+Lemma fold_apply_ops_concat : forall gs t, fold_left apply_ops gs t = apply_ops t (concat gs).
+Proof.
+  induction gs as [|g gs IH]; intros t; cbn [fold_left concat]; auto.
+  rewrite IH, apply_ops_app. reflexivity.
+Qed.
+Lemma fold_recompute_data : forall (gs : list (list op)) t, data_eq (fold_left (fun t _ => recompute t) gs t) t.
+Proof.
+  induction gs as [|g gs IH]; intros t; cbn [fold_left]; [apply data_eq_refl|].
+  eapply data_eq_trans; [apply IH|apply data_eq_recompute].
+Qed.
+Lemma req_eff_data : forall sk t r, data_eq (req_eff sk t r) (apply_ops t (eff_ops sk r)).
+Proof.
+  intros sk t r. unfold req_eff, eff_ops.
+  destruct (arm_of sk (r_kind r)) as [a|]; [|apply data_eq_refl].
+  destruct (a_fallible a); [|apply data_eq_refl].
+  unfold group_eff. destruct (a_kind a);
+    try (change (fold_left (fun t0 g => apply_ops t0 g) (r_groups r) t) with (fold_left apply_ops (r_groups r) t);
+         rewrite fold_apply_ops_concat; apply data_eq_refl).
+  apply fold_recompute_data.
+Qed.
+Lemma txn_body_data : forall sk b d, data_eq (txn_body sk b d) (apply_ops d (flat_map (eff_ops sk) b)).
+Proof.
+  intros sk b d. unfold txn_body. eapply data_eq_trans; [apply data_eq_write_marks|].
+  revert d. induction b as [|r b IH]; intros d; cbn [fold_left flat_map]; [apply data_eq_refl|].
+  rewrite apply_ops_app. eapply data_eq_trans; [apply IH|]. apply data_eq_apply_ops. apply req_eff_data.
+Qed.
+
+(* ------------------------------------------------------------------ a whole run *)
+Definition sel_ops (sk : skeleton) (items : list item) : list op :=
+  flat_map (fun x => if it_committed x then eff_ops sk (it_req x) else []) items.
+
+Lemma ack_batch_items : forall sk ok b au,
+  map it_req (fst (ack_batch sk ok au b)) = b /\
+  Forall (fun x => it_committed x = ok) (fst (ack_batch sk ok au b)).
+Proof.
+  induction b as [|r b IH]; intros au; cbn [ack_batch].
+  - split; [reflexivity|constructor].
+  - destruct (ack_req sk ok au r) as [a au1]. specialize (IH au1).
+    destruct (ack_batch sk ok au1 b) as [l au2]. cbn [fst map] in *. destruct IH as [IH1 IH2].
+    split; [unfold it_req at 1; cbn [fst]; congruence|constructor; [reflexivity|exact IH2]].
+Qed.
+
+Lemma sel_ops_const : forall sk (items : list item) ok,
+  Forall (fun x => it_committed x = ok) items ->
+  sel_ops sk items = if ok then flat_map (eff_ops sk) (map it_req items) else [].
+Proof.
+  intros sk items ok H. unfold sel_ops. induction H as [|x l Hx Hl IH]; cbn [flat_map map].
+  - destruct ok; reflexivity.
+  - rewrite IH, Hx. destruct ok; reflexivity.
+Qed.
+Lemma sel_ops_app : forall sk l1 l2, sel_ops sk (l1 ++ l2) = sel_ops sk l1 ++ sel_ops sk l2.
+Proof. intros. unfold sel_ops. apply flat_map_app. Qed.
+
+Lemma items_dead : forall sk (b : list req) c,
+  map it_req (map (fun q => (q, @None bool, c)) b) = b /\
+  Forall (fun x : item => it_committed x = c) (map (fun q => (q, @None bool, c)) b).
+Proof.
+  intros sk b c. induction b as [|q b [IH1 IH2]]; cbn [map]; split; try constructor; auto.
+  unfold it_req at 1. cbn [fst]. congruence.
+Qed.
+
+Theorem run_batches_structure : forall sk sched bs n st au,
+  let r := run_batches sk sched n st au bs in
+  map it_req (rr_items r) = concat bs /\
+  data_eq (w_disk (rr_state r)) (apply_ops (w_disk st) (sel_ops sk (rr_items r))).
+Proof.
+  intros sk sched. induction bs as [|b bs IH]; intros n st au; cbv zeta; cbn [run_batches].
+  - cbn. split; [reflexivity|apply data_eq_refl].
+  - pose proof (run_batch_atomic sk sched n st b) as Hat. cbv zeta in Hat.
+    destruct (run_batch sk sched n st b) as [[[st' o] n'] last]. cbn [fst snd] in Hat.
+    destruct o as [ok|c].
+    + pose proof (ack_batch_items sk ok b au) as [Hi1 Hi2].
+      destruct (ack_batch sk ok au b) as [items au']. cbn [fst] in Hi1, Hi2.
+      specialize (IH n' st' au'). cbv zeta in IH. destruct IH as [IH1 IH2].
+      cbn [rr_items rr_state concat]. split.
+      * rewrite map_app, Hi1, IH1. reflexivity.
+      * rewrite sel_ops_app, apply_ops_app. eapply data_eq_trans; [exact IH2|].
+        apply data_eq_apply_ops. rewrite (sel_ops_const sk items ok Hi2), Hi1.
+        destruct ok; cbn [batch_post] in Hat.
+        -- destruct Hat as [_ [Hd _]]. rewrite Hd. apply txn_body_data.
+        -- rewrite Hat. apply data_eq_refl.
+    + cbn [rr_items rr_state concat].
+      pose proof (items_dead sk b c) as [Hb1 Hb2].
+      pose proof (items_dead sk (concat bs) false) as [Hr1 Hr2].
+      split.
+      * rewrite map_app, Hb1, Hr1. reflexivity.
+      * rewrite sel_ops_app, (sel_ops_const sk _ c Hb2), (sel_ops_const sk _ false Hr2), Hb1, app_nil_r.
+        destruct c; cbn [batch_post] in Hat.
+        -- destruct Hat as [_ [Hd _]]. rewrite Hd. apply txn_body_data.
+        -- rewrite Hat. apply data_eq_refl.
+Qed.
+
+Theorem run_batches_loginv : forall sk sched bs n st au,
+  (forall r, In r (concat bs) -> Covers sk r) ->
+  LogInv (w_disk st) -> LogInv (w_disk (rr_state (run_batches sk sched n st au bs))).
+Proof.
+  intros sk sched. induction bs as [|b bs IH]; intros n st au Hcov Hinv; cbn [run_batches]; [exact Hinv|].
+  pose proof (run_batch_atomic sk sched n st b) as Hat. cbv zeta in Hat.
+  destruct (run_batch sk sched n st b) as [[[st' o] n'] last]. cbn [fst snd] in Hat.
+  assert (Hst' : LogInv (w_disk st')).
+  { assert (Hb : forall r, In r b -> Covers sk r) by (intros r Hr; apply Hcov; cbn [concat]; apply in_or_app; left; exact Hr).
+    destruct o as [[|]|[|]]; cbn [batch_post] in Hat.
+    - destruct Hat as [_ [Hd _]]. rewrite Hd. apply txn_body_loginv; assumption.
+    - rewrite Hat. exact Hinv.
+    - destruct Hat as [_ [Hd _]]. rewrite Hd. apply txn_body_loginv; assumption.
+    - rewrite Hat. exact Hinv. }
+  destruct o as [ok|c].
+  - destruct (ack_batch sk ok au b) as [items au']. cbn [rr_state].
+    apply IH; [|exact Hst']. intros r Hr. apply Hcov. cbn [concat]. apply in_or_app. right. exact Hr.
+  - cbn [rr_state]. exact Hst'.
+Qed.
